@@ -38,6 +38,7 @@ func runCmd(args []string) {
 	verif := fs.String("verif", "/verif", "verif dir")
 	replay := fs.String("replay", "", "replay file")
 	_ = fs.String("repo", "/repo", "repository root")
+	maxFail := fs.Int("maxfail", 3, "replays kept per signature")
 	_ = fs.Parse(args)
 	run, ok := props[*prop]
 	if !ok {
@@ -51,7 +52,7 @@ func runCmd(args []string) {
 	res := &Result{Property: *prop, Tier: *tier, Seed: *seed, Distribution: map[string]int{},
 		nontrivial: map[uint64]struct{}{}, Failures: []Failure{}, Samples: []string{}}
 	ctx := &Ctx{Prop: *prop, Tier: *tier, Seed: *seed, Rng: rand.New(rand.NewSource(*seed)), Drv: drv,
-		Res: res, VerifDir: *verif, ReplayIn: *replay, MaxFail: 3, failCount: map[string]int{}}
+		Res: res, VerifDir: *verif, ReplayIn: *replay, MaxFail: *maxFail, failCount: map[string]int{}}
 	start := time.Now()
 	run(ctx)
 	res.WallS = time.Since(start).Seconds()
